@@ -509,4 +509,9 @@ func c08Newcomer(w *W, topo, tran string, members []*c8Member, listeners map[*c8
 
 func init() {
 	register(&Scenario{Name: "bus-star-topologies", Prop: "C08", Horizon: time.Hour, Run: c08Run})
+	// C01: "one send yielding one receive, ... never mixed with another
+	// message", with more than one peer per socket: a message that a member
+	// hands on to several peers (BUS fan-out, STAR forwarding) while its own
+	// application receives it must reach each of them whole and unchanged
+	register(&Scenario{Name: "fanout-and-forwarding-bytes", Prop: "C01", Horizon: time.Hour, Weight: 3, Run: c08Run})
 }
